@@ -47,6 +47,8 @@ def coq_term(t):
         return f"TMap ({m}) ({coq_term(t[2])})"
     if k == 'flat':
         return f"TFlat {t[1]} ({coq_term(t[2])})"
+    if k == 'concat':
+        return f"TConcat {t[1]} ({coq_term(t[2])})"
     raise ValueError(t)
 
 
@@ -76,7 +78,13 @@ def coq_cond(c):
 def coq_qcase(case):
     heap = "[" + "; ".join("[" + "; ".join(coq_val(v) for v in o) + "]" for o in case['heap']) + "]"
     doms = "[" + "; ".join(f"({k}, [{'; '.join(coq_val({'o': i}) for i in d)}])" for k, d in case['doms']) + "]"
-    bs = "[" + "; ".join(f"BVar {b[1]}" if b[0] == 'var' else f"BFlat {b[1]} ({coq_term(b[2])})" for b in case['binders']) + "]"
+    def cb(b):
+        if b[0] == 'var':
+            return f"BVar {b[1]}"
+        if b[0] == 'flat':
+            return f"BFlat {b[1]} ({coq_term(b[2])})"
+        return f"BConcat {b[1]} {b[2]} ({coq_term(b[3])})"
+    bs = "[" + "; ".join(cb(b) for b in case['binders']) + "]"
     sel = "[" + "; ".join(coq_term(t) for t in case['sel']) + "]"
     cond = f"Some ({coq_cond(case['cond'])})" if case['cond'] is not None else "None"
     return (f"{{| qc_heap := {heap}; qc_doms := {doms}; qc_binders := {bs}; qc_sel := {sel}; qc_cond := {cond} |}}")
@@ -119,6 +127,8 @@ def term_keys(t, acc):
     elif t[0] == 'flat':
         acc.add(t[1])
         term_keys(t[2], acc)
+    elif t[0] == 'concat':
+        acc.add(t[1])
     return acc
 
 
@@ -156,6 +166,6 @@ def all_selected(case):
     """every binder of the query is selected as such (then rows are compared as sequences / multisets)"""
     sel = set()
     for t in case['sel']:
-        if t[0] in ('var', 'flat'):
+        if t[0] in ('var', 'flat', 'concat'):
             sel.add(t[1])
     return all(b[1] in sel for b in case['binders'])
